@@ -280,6 +280,11 @@ func genLogEx(k *kernel.K, id, conn int, last bool, odd bool) *logEx {
 		}
 		if w.Chance(1, 3) {
 			rs.Trailer = []wire.HF{{Name: "X-Resp-Trailer", Value: fmt.Sprint("rt", id)}}
+			if odd && w.Chance(1, 4) {
+				rs.UnannouncedTrailer = true
+				e.odd = "unannounced_trailer"
+				k.Probe("odd_unannounced_trailer")
+			}
 		}
 	case 2:
 		if last {
@@ -567,7 +572,11 @@ func runLog(k *kernel.K, focus string) {
 				k.Fail("C15.twin_request", map[string]string{"logger": logger, "aspect": asp}, "%s: the request the origin received differs from the unlogged twin: %s", desc, d)
 			}
 			if asp, d := msgAspectDiff(plain.clientResp[e.id], logged.clientResp[e.id]); asp != "" {
-				k.Fail("C15.twin_response", map[string]string{"logger": logger, "aspect": asp}, "%s: the response the client received differs from the unlogged twin: %s", desc, d)
+				params := map[string]string{"logger": logger, "aspect": asp}
+				if e.odd == "unannounced_trailer" && strings.Contains(d, "trailer") {
+					params["trailer_announced"] = "false"
+				}
+				k.Fail("C15.twin_response", params, "%s: the response the client received differs from the unlogged twin: %s", desc, d)
 			}
 			c15Skip(k, e, logged, desc)
 			if logger == "snapshot" {
